@@ -178,6 +178,9 @@ type pool struct {
 	idle    []*pworker
 	Deaths  int
 	Started int
+	// retire (optional) inspects a worker's answer; true = the worker declared itself
+	// unusable for further jobs and is stopped (a fresh one is started when needed).
+	retire func(out []byte) bool
 }
 
 func newPool(mode string, n int, env []string) *pool {
@@ -241,6 +244,10 @@ func (p *pool) run(id string, jobs [][]byte, jobWatchdog time.Duration, stop fun
 					p.mu.Lock()
 					p.Deaths++
 					p.mu.Unlock()
+					w = nil
+				}
+				if r.Death == nil && p.retire != nil && p.retire(r.Out) {
+					w.stop()
 					w = nil
 				}
 				res[j] = r
